@@ -460,7 +460,14 @@ func checkSide[I fp.Eq[V]](c *caseT, side string, inst I, reg map[*dyn.Expr]I, n
 			for k := 0; k < n; k++ {
 				triples++
 				if mat[j][k] && !mat[i][k] {
-					viol(name(e)+"/not-transitive", fmt.Sprintf("Eqv(a,b) and Eqv(b,c) but not Eqv(a,c)\na = %s\nb = %s\nc = %s", c.show(i), c.show(j), c.show(k)), i, j, k)
+					b := name(e)
+					for _, pr := range [][2]int{{i, j}, {j, k}, {i, k}} {
+						if mat[pr[0]][pr[1]] != dyn.RefEq(e, c.pool[pr[0]].M, c.pool[pr[1]].M) {
+							b = blameOf(pr[0], pr[1])
+							break
+						}
+					}
+					viol(b+"/not-transitive", fmt.Sprintf("Eqv(a,b) and Eqv(b,c) but not Eqv(a,c)\na = %s\nb = %s\nc = %s", c.show(i), c.show(j), c.show(k)), i, j, k)
 				}
 			}
 		}
